@@ -329,7 +329,7 @@ def observe_module(job):
 # ---------------------------------------------------------------------------------------------------------------------------------
 # tie to SuiteS.tla: symbols that occur only in outputs, and the comparison of the eraser with Allowed()
 OUT_STMT = {
-    ('zero',): '0', ('assign',): 'av = emit("annval")', ('annzero',): 'an: 0', ('raise0_nb',): 'raise ValueError',
+    ('zero',): '0', ('assign',): 'av = emit("annval")', ('annzero',): 'an: 0', ('annzero_zq',): 'zq: 0', ('raise0_nb',): 'raise ValueError',
     ('raisefrom_nb_exc',): 'raise ValueError from KeyError()', ('raisefrom_nb_cause',): 'raise ValueError() from KeyError',
     ('raisefrom_nb_both',): 'raise ValueError from KeyError', ('classnoobj',): 'class Inner: emit("inner")', ('nodbg',): 'emit("nodbg")',
     ('elif_if',): 'if emit("elif"): emit("elifbody")',
